@@ -1,11 +1,13 @@
 package tor
 
 import (
+	"context"
 	"sync"
 
 	"github.com/jech/storrent/config"
 	"github.com/jech/storrent/known"
 	"github.com/jech/storrent/peer"
+	"github.com/jech/storrent/webseed"
 )
 
 // Read-only accessors for the simulator's oracles (called only at instants
@@ -47,3 +49,48 @@ func (t *Torrent) SimKnown() []known.Peer {
 }
 
 func SimCount() int { return count() }
+
+// ---- web seeds (C14) ----
+
+type SimFileChunk struct {
+	Path       []string
+	FileLength int64
+	Offset     int64
+	Length     int64
+	Pad        bool
+}
+
+// SimFileChunks exposes the range-to-files mapping.
+func SimFileChunks(t *Torrent, index, offset, length uint32) []SimFileChunk {
+	var out []SimFileChunk
+	for _, fc := range fileChunks(t, index, offset, length) {
+		out = append(out, SimFileChunk{fc.path, fc.filelength, fc.offset, fc.length, fc.pad})
+	}
+	return out
+}
+
+// SimWebseedFetch does what maybeWebseed does once it has chosen a web seed
+// and a range: it reserves the blocks and runs the fetch (in the caller's
+// goroutine).  It must be called while the torrent's goroutine is idle.
+func SimWebseedFetch(ctx context.Context, t *Torrent, n int, index, offset, length uint32) {
+	cpp := t.Pieces.PieceSize() / config.ChunkSize
+	for i := uint32(0); i < length; i += config.ChunkSize {
+		noteInFlight(t, index*cpp+(offset+i)/config.ChunkSize, true)
+	}
+	switch ws := t.webseeds[n].(type) {
+	case *webseed.GetRight:
+		webseedGR(ctx, ws, t, index, offset, length)
+	case *webseed.Hoffman:
+		webseedH(ctx, ws, t, index, offset, length)
+	}
+}
+
+// SimWebseedsIdle reports whether no web-seed fetch is running.
+func (t *Torrent) SimWebseedsIdle() bool {
+	for _, ws := range t.webseeds {
+		if ws.Count() != 0 {
+			return false
+		}
+	}
+	return true
+}
